@@ -119,6 +119,11 @@ CLASSES = {
             "_execute_graph_impl": {"pure": False, "returns": OBJ("GraphState"), "raises": ["Exception"]},
         },
     },
+    "AsyncFunctionNodeExecutor": {
+        "module": "hypergraph.runners.async_.executors.function_node", "file": "runners/async_/executors/function_node.py", "attrs": {},
+        "methods": {"_execute": {"pure": False, "returns": DICT(STR, ANY), "raises": ["Exception"], "coroutine": True}},
+    },
+    "SyncFunctionNodeExecutor": {"module": "hypergraph.runners.sync.executors.function_node", "file": "runners/sync/executors/function_node.py", "attrs": {}, "methods": {}},
     "SyncRunner": {
         "module": "hypergraph.runners.sync.runner", "file": "runners/sync/runner.py",
         "attrs": {"_cache": ANY, "_executors": DICT(ANY, ANY), "default_max_iterations": INT},
